@@ -44,6 +44,7 @@ func init() {
 				n = 100000
 			}
 			return []runner.Phase{
+				{Name: "attempt-accounting", Variant: "race", Cases: n / 100, Run: c13accounting, CaseTimeout: 120 * time.Second, Required: []string{"attempts_recorded_concurrently"}},
 				{Name: "scenarios", Variant: "race", Cases: n, Run: c13case, CaseTimeout: 120 * time.Second,
 					Required: []string{"retry_same_host", "retry_next_host", "rethrow_or_ignore", "non_idempotent", "speculative", "ctx_cancelled", "budget_exhausted", "batches", "host_down_while_in_flight", "batch_reused_after_entries_changed", "speculative_batch_executions_seen"}},
 			}
@@ -754,4 +755,83 @@ func (o *c13observer) ObserveQuery(ctx context.Context, q gocql.ObservedQuery) {
 }
 func (o *c13observer) ObserveBatch(ctx context.Context, b gocql.ObservedBatch) {
 	o.add(b.Host, b.Err, b.Attempt, b.Start, b.End)
+}
+
+// c13accounting: every retry policy decides on the query's attempt count, and concurrent (speculative) executions of
+// one query record their attempts at the same time. Driven through the executor's own bookkeeping call from several
+// goroutines: no attempt may get lost, and every attempt gets its own number.
+func c13accounting(c *runner.Ctx, i int) {
+	r := c.Rng
+	cl := fakenode.NewCluster(1)
+	cfg := newCfg(cl, 4)
+	sess, err := cfg.CreateSession()
+	if err != nil {
+		c.Inconclusive("c13-session", err.Error())
+		return
+	}
+	defer sess.Close()
+	hosts := []*gocql.HostInfo{gocql.VerifNewHostInfo("h1", []byte{10, 0, 0, 1}, 9042, "dc", "r", nil, true), gocql.VerifNewHostInfo("h2", []byte{10, 0, 0, 2}, 9042, "dc", "r", nil, true)}
+	ng := 2 + r.Intn(7)
+	per := 1000 + r.Intn(3000)
+	for _, kind := range []string{"query", "batch"} {
+		obs := &c13numbers{seen: map[int]int{}}
+		var eq gocql.ExecutableQuery
+		var attempts func() int
+		if kind == "query" {
+			q := sess.Query("RETRY accounting").Observer(obs)
+			eq, attempts = q, q.Attempts
+		} else {
+			b := sess.NewBatch(gocql.UnloggedBatch).Observer(obs)
+			eq, attempts = b, b.Attempts
+		}
+		var wg sync.WaitGroup
+		start := make(chan struct{})
+		for g := 0; g < ng; g++ {
+			wg.Add(1)
+			go func(g int) {
+				defer wg.Done()
+				<-start
+				for k := 0; k < per; k++ {
+					gocql.VerifRecordAttempt(eq, hosts[(g+k)%2])
+				}
+			}(g)
+		}
+		close(start)
+		wg.Wait()
+		want := ng * per
+		c.Add("attempts_recorded_concurrently", int64(want))
+		c.Eval(runner.H("c13acc", kind, ng, per), true)
+		wit := map[string]interface{}{"kind": kind, "goroutines": ng, "attempts_each": per}
+		if got := attempts(); got != want {
+			c.Violation("C13:attempt-count-lost-update:"+kind, fmt.Sprintf("%d attempts were recorded by %d concurrent executions but Attempts() = %d: retry policies would allow %d attempts too many", want, ng, got, want-got), wit)
+		}
+		obs.mu.Lock()
+		dups, n := 0, 0
+		for _, k := range obs.seen {
+			n += k
+			if k > 1 {
+				dups++
+			}
+		}
+		obs.mu.Unlock()
+		if n != want || dups > 0 {
+			c.Violation("C13:attempt-number-not-unique:"+kind, fmt.Sprintf("the observer saw %d attempts (want %d), %d attempt numbers were handed out more than once", n, want, dups), wit)
+		}
+	}
+}
+
+type c13numbers struct {
+	mu   sync.Mutex
+	seen map[int]int
+}
+
+func (o *c13numbers) ObserveQuery(ctx context.Context, q gocql.ObservedQuery) {
+	o.mu.Lock()
+	o.seen[q.Attempt]++
+	o.mu.Unlock()
+}
+func (o *c13numbers) ObserveBatch(ctx context.Context, b gocql.ObservedBatch) {
+	o.mu.Lock()
+	o.seen[b.Attempt]++
+	o.mu.Unlock()
 }
